@@ -22,6 +22,9 @@ type faultFull struct {
 	calls  *int
 	failAt int
 	log    *[]string
+	bare   bool // the injected failure is a bare error value, not a *PathError
+	failOn string // when set: every primitive call of this kind (first word of its log line) fails
+	hits   *int   // (with failOn) how many calls failed
 }
 
 func (f faultFull) tick(what string) error {
@@ -30,7 +33,19 @@ func (f faultFull) tick(what string) error {
 	if f.log != nil {
 		*f.log = append(*f.log, what)
 	}
+	if f.failOn != "" && strings.Fields(what)[0] == f.failOn {
+		if f.hits != nil {
+			*f.hits++
+		}
+		if f.bare {
+			return errInjected
+		}
+		return &hackpadfs.PathError{Op: "injected", Path: what, Err: errInjected}
+	}
 	if n == f.failAt {
+		if f.bare {
+			return errInjected
+		}
 		return &hackpadfs.PathError{Op: "injected", Path: what, Err: errInjected}
 	}
 	return nil
